@@ -313,7 +313,9 @@ def sysStep (y : State) (op : Op) (hint : Option Who) : State × Obs :=
     let d := y.slots i
     if !d.used || !d.connected || d.parked.contains (ridOf u) || d.cancelHeld.contains (ridOf u) then (y, .refused) else
     if !d.modern then
-      if hold then (y, .refused) else ({ y with srv := unsubscribe y.srv d.sid u }, .ok) else
+      if hold then (y, .refused) else
+      -- `Server.unsubscribe`: the application's UnsubscribeHandler refuses ⇒ the error is returned BEFORE the table is touched
+      if y.refused.contains u then (y, .err) else ({ y with srv := unsubscribe y.srv d.sid u }, .ok) else
     if !d.rsubs.contains u then (if hold then (y, .refused) else (y, .ok)) else
     let d := { d with rsubs := d.rsubs.filter (· != u) }
     let d := d.setCache .read (Cache.step true (d.caches .read) (.unsub u)).1
